@@ -431,6 +431,34 @@ def install(w):
     def _nth(ex, args, kw, e, env):
         return Z(ex.S.nth(ex.to_list(args[0]), ex.to_int(args[1])))
 
+    @b("last")
+    def _last(ex, args, kw, e, env):
+        l = ex.to_list(args[0])
+        return Z(ex.S.nth(l, ex.S.len_l(l) - 1))
+
+    @b("has_qmd")
+    def _has_qmd(ex, args, kw, e, env):
+        """the node carries a `_q_metadata` attribute (ghost attribute of the node term)"""
+        return Z(ex.w.ufun("hasattr___q_metadata", ex.S.Py, z3.BoolSort())(ex.to_py(args[0])))
+
+    @b("qmd")
+    def _qmd(ex, args, kw, e, env):
+        return Z(ex.w.ufun("attr___q_metadata", ex.S.Py, ex.S.Py)(ex.to_py(args[0])))
+
+    @b("dict_has")
+    def _dict_has(ex, args, kw, e, env):
+        d = ex.to_py(args[0])
+        return Z(z3.And(ex.P.is_PDict(d), ex.S.contains(ex.P.dkeys(d), ex.to_py(args[1]))))
+
+    @b("dict_get")
+    def _dict_get(ex, args, kw, e, env):
+        d = ex.to_py(args[0])
+        return Z(ex.S.assoc(ex.P.dkeys(d), ex.P.dvals(d), ex.to_py(args[1])))
+
+    @b("is_dict")
+    def _is_dict(ex, args, kw, e, env):
+        return Z(ex.P.is_PDict(ex.to_py(args[0])))
+
     @b("concat")
     def _concat(ex, args, kw, e, env):
         return Z(ex.S.concat(ex.to_list(args[0]), ex.to_list(args[1])))
